@@ -6,15 +6,22 @@ The pair-level facts are in `OSProofs/Props/C16.lean`; here they are lifted to w
 
 * **Change of unit** (`k > 0`): every `mu`, `sigma`, `beta`, `tau` (model default and per-call value)
   is multiplied by `k`.  Inputs: `scaleTeams k teams`, `scaleParams k P`, `scaleOpts k o`.
-  For Plackett–Luce and both Bradley–Terry models — and any gamma of the tagged family, all of which
-  are pure numbers — `_compute` and `rate` return the old result in the new unit; the limit-sigma
+  For Plackett–Luce and both Bradley–Terry models — and any gamma callback that is a pure number
+  (`GammaScaleInv`: its value does not change when its arguments `c`, `mu`, the players' `mu`,
+  `sigma` are multiplied by `k` and `sigma_squared` by `k²`; every member of the tagged family is, and so
+  is the team-reading callback `gammaTeamSigma`) — `_compute` and `rate` return the old result in the
+  new unit; the limit-sigma
   clamp, the rank sort/unsort and the `kappa` floor are unaffected.  No positivity condition on
   `beta` or the sigmas is needed (every identity used, `√(k²x) = k√x`, `kx/(kc) = x/c`, also holds
   at `c = 0`).  The Thurstone–Mosteller models use `kappa / c_iq` as a draw margin, so with a fixed
   `kappa` they are unit-free only for `kappa = 0` (`…_kappa0` versions below).
 * **Change of origin** (`d` added to every `mu`), all five models, when all teams have the same
   number `m` of players: every team mu moves by `m·d`, every omega and delta is unchanged, so every
-  posterior `mu` moves by `d` and every `sigma` is unchanged.
+  posterior `mu` moves by `d` and every `sigma` is unchanged.  Gamma: any callback whose value is
+  unchanged when the players' `mu` move by `d` and the team `mu` by (team size)·`d` (`GammaShiftInv`:
+  the tagged family, `gammaTeamSigma`, …).
+* The `…_tagged` versions restate the game-level theorems for the tagged family with no hypothesis on
+  gamma (the statements as they were before `.fn` existed).
 * **Predictions** (`predict_win`, `predict_draw`, `predict_rank`; the text is shared by the five
   models) are invariant under both.
 -/
@@ -35,49 +42,68 @@ theorem C16_teamAgg_scale (k : ℝ) (team : List (Rating ℝ)) (r : Nat) :
   teamAgg_scale k team r
 
 /-- **omega scales with the unit, delta does not** — Plackett–Luce and both Bradley–Terry models,
-    every gamma of the tagged family (default, constant, `1/k`, rank dependent, `σ²/c²`, zero).
+    every scale-invariant gamma callback (in particular the tagged family: default, constant, `1/k`,
+    rank dependent, `σ²/c²`, zero).
     Only `beta` has to be rescaled for this statement (tau does not enter `omegaDelta`). -/
 theorem C16_omegaDelta_scale (K : Kind) (hK : K = .PL ∨ K = .BTF ∨ K = .BTP) (L : Leaves ℝ)
-    (k : ℝ) (hk : 0 < k) (P : Params ℝ) (ts : List (TeamAgg ℝ)) :
+    (k : ℝ) (hk : 0 < k) (P : Params ℝ) (hg : GammaScaleInv P.gamma) (ts : List (TeamAgg ℝ)) :
     omegaDelta K L { P with beta := k * P.beta } (ts.map (TeamAgg.scale k))
       = (omegaDelta K L P ts).map (fun od => (k * od.1, od.2)) := by
-  rw [← omegaDelta_scale K hK L k hk P ts]
+  rw [← omegaDelta_scale K hK L k hk P hg ts]
   exact omegaDelta_congr_params K L _ _ rfl rfl rfl _
 
 /-- `_compute` in the new unit returns the old posterior in the new unit (dense ranks are pure
     numbers and stay as they are) -/
 theorem C16_compute_scale (K : Kind) (hK : K = .PL ∨ K = .BTF ∨ K = .BTP) (L : Leaves ℝ)
-    (k : ℝ) (hk : 0 < k) (P : Params ℝ) (teams : List (List (Rating ℝ))) (dense : List Nat) :
+    (k : ℝ) (hk : 0 < k) (P : Params ℝ) (hg : GammaScaleInv P.gamma)
+    (teams : List (List (Rating ℝ))) (dense : List Nat) :
     compute K L (scaleParams k P) (scaleTeams k teams) dense
       = scaleTeams k (compute K L P teams dense) :=
-  compute_scale K L k hk P (Or.inl hK) teams dense
+  compute_scale K L k hk P hg (Or.inl hK) teams dense
 
 /-- `rate` after validation, in the new unit: the tau inflation, the sort by rank, `_compute`, the
     sort back and the limit-sigma clamp all commute with the change of unit -/
 theorem C16_rateCore_scale {ρ : Type} (K : Kind) (hK : K = .PL ∨ K = .BTF ∨ K = .BTP)
-    (L : Leaves ℝ) (k : ℝ) (hk : 0 < k) (P : Params ℝ) (le : ρ → ρ → Bool)
+    (L : Leaves ℝ) (k : ℝ) (hk : 0 < k) (P : Params ℝ) (hg : GammaScaleInv P.gamma) (le : ρ → ρ → Bool)
     (teams : List (List (Rating ℝ))) (ranks : Option (List ρ)) (o : CallOpts ℝ) :
     rateCore K L (scaleParams k P) le (scaleTeams k teams) ranks (scaleOpts k o)
       = scaleTeams k (rateCore K L P le teams ranks o) :=
-  rateCore_scale K L k hk P (Or.inl hK) le teams ranks o
+  rateCore_scale K L k hk P hg (Or.inl hK) le teams ranks o
 
 /-- the same for `rate` with ranks, scores or neither -/
 theorem C16_rate_scale {ρ : Type} (K : Kind) (hK : K = .PL ∨ K = .BTF ∨ K = .BTP)
-    (L : Leaves ℝ) (k : ℝ) (hk : 0 < k) (P : Params ℝ) (le : ρ → ρ → Bool) (neg : ρ → ρ)
+    (L : Leaves ℝ) (k : ℝ) (hk : 0 < k) (P : Params ℝ) (hg : GammaScaleInv P.gamma)
+    (le : ρ → ρ → Bool) (neg : ρ → ρ)
     (teams : List (List (Rating ℝ))) (oc : Outcome ρ) (o : CallOpts ℝ) :
     rate K L (scaleParams k P) le neg (scaleTeams k teams) oc (scaleOpts k o)
       = scaleTeams k (rate K L P le neg teams oc o) := by
-  cases oc <;> simp only [rate] <;> exact C16_rateCore_scale K hK L k hk P le teams _ o
+  cases oc <;> simp only [rate] <;> exact C16_rateCore_scale K hK L k hk P hg le teams _ o
+
+/-- `C16_rate_scale` for the tagged family: no hypothesis on gamma -/
+theorem C16_rate_scale_tagged {ρ : Type} (K : Kind) (hK : K = .PL ∨ K = .BTF ∨ K = .BTP)
+    (L : Leaves ℝ) (k : ℝ) (hk : 0 < k) (P : Params ℝ) (hg : P.gamma.Tagged)
+    (le : ρ → ρ → Bool) (neg : ρ → ρ)
+    (teams : List (List (Rating ℝ))) (oc : Outcome ρ) (o : CallOpts ℝ) :
+    rate K L (scaleParams k P) le neg (scaleTeams k teams) oc (scaleOpts k o)
+      = scaleTeams k (rate K L P le neg teams oc o) :=
+  C16_rate_scale K hK L k hk P (gam_tagged_scaleInv hg) le neg teams oc o
+
+/-- `C16_omegaDelta_scale` for the tagged family -/
+theorem C16_omegaDelta_scale_tagged (K : Kind) (hK : K = .PL ∨ K = .BTF ∨ K = .BTP) (L : Leaves ℝ)
+    (k : ℝ) (hk : 0 < k) (P : Params ℝ) (hg : P.gamma.Tagged) (ts : List (TeamAgg ℝ)) :
+    omegaDelta K L { P with beta := k * P.beta } (ts.map (TeamAgg.scale k))
+      = (omegaDelta K L P ts).map (fun od => (k * od.1, od.2)) :=
+  C16_omegaDelta_scale K hK L k hk P (gam_tagged_scaleInv hg) ts
 
 /-- with `kappa = 0` the change of unit is sound for all five models (for the Thurstone–Mosteller
     models `kappa / c_iq` is the draw margin, so a non-zero `kappa` carries the unit there while it is
     a pure number in the variance floor) -/
 theorem C16_rateCore_scale_kappa0 {ρ : Type} (K : Kind) (L : Leaves ℝ) (k : ℝ) (hk : 0 < k)
-    (P : Params ℝ) (hκ : P.kappa = 0) (le : ρ → ρ → Bool)
+    (P : Params ℝ) (hg : GammaScaleInv P.gamma) (hκ : P.kappa = 0) (le : ρ → ρ → Bool)
     (teams : List (List (Rating ℝ))) (ranks : Option (List ρ)) (o : CallOpts ℝ) :
     rateCore K L (scaleParams k P) le (scaleTeams k teams) ranks (scaleOpts k o)
       = scaleTeams k (rateCore K L P le teams ranks o) :=
-  rateCore_scale K L k hk P (Or.inr hκ) le teams ranks o
+  rateCore_scale K L k hk P hg (Or.inr hκ) le teams ranks o
 
 /-- read off one player: mu and sigma are the old ones times `k`, the identity is kept -/
 theorem C16_scale_player (k : ℝ) (p : Rating ℝ) :
@@ -91,34 +117,52 @@ theorem C16_teamAgg_shift (d : ℝ) (team : List (Rating ℝ)) (r : Nat) :
     teamAgg (team.map (shiftPlayer d)) r = (teamAgg team r).shiftP d (team.length * d) :=
   teamAgg_shift d team r
 
-/-- moving every team mu by the same amount `D` changes no omega and no delta — all five models,
-    every gamma of the tagged family, either leaf implementation -/
+/-- moving every team mu by the same amount `D` (and the mu of the players the aggregates carry by
+    `d`) changes no omega and no delta — all five models, either leaf implementation, every gamma
+    callback whose call for each team is unchanged (`gam_ShiftAt`; for a `GammaShiftInv` callback: when
+    `D` = (team size)·`d`, see `gam_shiftAt_of_inv`) -/
 theorem C16_omegaDelta_shift (K : Kind) (L : Leaves ℝ) (d D : ℝ) (P : Params ℝ)
-    (ts : List (TeamAgg ℝ)) :
+    (ts : List (TeamAgg ℝ)) (hg : ∀ t ∈ ts, gam_ShiftAt P.gamma d D t) :
     omegaDelta K L P (ts.map (TeamAgg.shiftP d D)) = omegaDelta K L P ts :=
-  omegaDelta_shift K L d D P ts
+  omegaDelta_shift K L d D P ts hg
+
+/-- the statement for the tagged family: any `d`, `D`, no hypothesis on gamma -/
+theorem C16_omegaDelta_shift_tagged (K : Kind) (L : Leaves ℝ) (d D : ℝ) (P : Params ℝ)
+    (hg : P.gamma.Tagged) (ts : List (TeamAgg ℝ)) :
+    omegaDelta K L P (ts.map (TeamAgg.shiftP d D)) = omegaDelta K L P ts :=
+  omegaDelta_shift_tagged K L d D P hg ts
 
 /-- `_compute` with the origin moved by `d`, all teams of the same size: every posterior mu moves by
     `d`, every posterior sigma is unchanged -/
 theorem C16_compute_shift (K : Kind) (L : Leaves ℝ) (d : ℝ) (m : Nat) (P : Params ℝ)
+    (hg : GammaShiftInv P.gamma)
     (teams : List (List (Rating ℝ))) (hm : ∀ t ∈ teams, t.length = m) (dense : List Nat) :
     compute K L P (shiftTeams d teams) dense = shiftTeams d (compute K L P teams dense) :=
-  compute_shift K L d m P teams hm dense
+  compute_shift K L d m P hg teams hm dense
 
 /-- `rate` after validation with the origin moved by `d`, all teams of the same size -/
 theorem C16_rateCore_shift {ρ : Type} (K : Kind) (L : Leaves ℝ) (d : ℝ) (m : Nat)
-    (P : Params ℝ) (le : ρ → ρ → Bool) (teams : List (List (Rating ℝ)))
+    (P : Params ℝ) (hg : GammaShiftInv P.gamma) (le : ρ → ρ → Bool) (teams : List (List (Rating ℝ)))
     (hm : ∀ t ∈ teams, t.length = m) (ranks : Option (List ρ)) (o : CallOpts ℝ) :
     rateCore K L P le (shiftTeams d teams) ranks o
       = shiftTeams d (rateCore K L P le teams ranks o) :=
-  rateCore_shift K L d m P le teams hm ranks o
+  rateCore_shift K L d m P hg le teams hm ranks o
 
 /-- the same for `rate` with ranks, scores or neither -/
 theorem C16_rate_shift {ρ : Type} (K : Kind) (L : Leaves ℝ) (d : ℝ) (m : Nat)
-    (P : Params ℝ) (le : ρ → ρ → Bool) (neg : ρ → ρ) (teams : List (List (Rating ℝ)))
+    (P : Params ℝ) (hg : GammaShiftInv P.gamma) (le : ρ → ρ → Bool) (neg : ρ → ρ)
+    (teams : List (List (Rating ℝ)))
     (hm : ∀ t ∈ teams, t.length = m) (oc : Outcome ρ) (o : CallOpts ℝ) :
     rate K L P le neg (shiftTeams d teams) oc o = shiftTeams d (rate K L P le neg teams oc o) := by
-  cases oc <;> simp only [rate] <;> exact C16_rateCore_shift K L d m P le teams hm _ o
+  cases oc <;> simp only [rate] <;> exact C16_rateCore_shift K L d m P hg le teams hm _ o
+
+/-- `C16_rate_shift` for the tagged family: no hypothesis on gamma -/
+theorem C16_rate_shift_tagged {ρ : Type} (K : Kind) (L : Leaves ℝ) (d : ℝ) (m : Nat)
+    (P : Params ℝ) (hg : P.gamma.Tagged) (le : ρ → ρ → Bool) (neg : ρ → ρ)
+    (teams : List (List (Rating ℝ)))
+    (hm : ∀ t ∈ teams, t.length = m) (oc : Outcome ρ) (o : CallOpts ℝ) :
+    rate K L P le neg (shiftTeams d teams) oc o = shiftTeams d (rate K L P le neg teams oc o) :=
+  C16_rate_shift K L d m P (gam_tagged_shiftInv hg) le neg teams hm oc o
 
 /-- read off one player: mu is the old one plus `d`, sigma and identity are kept -/
 theorem C16_shift_player (d : ℝ) (p : Rating ℝ) :
